@@ -44,7 +44,9 @@ OPS = [('run', k) for k in PROGS] + [
     ('set_input', ['i1', 'i2']), ('set_input', 'solo'), ('queue_input', 'q1', 'q2'), ('clear_input',),
     ('set_input_noclear', ['k1']), ('set_input', []), ('set_input_noclear', []), ('queue_input',),
     ('run_inputs', 'read2', []), ('run_inputs', 'read1', ['r1', 'r2']), ('call_inputs', 'rd', ''),
-    ('set_input', 7), ('set_input_tuple', ('t1', 't2')), ('set_input_callable',), ('run_before_after', 'read1'),
+    ('set_input', 7), ('set_input_tuple', ('t1', 't2')),
+    # numbers inside a list: handed out as text, like every input
+    ('set_input', [6, 2.5, True]), ('queue_input', 7, 0.5), ('run_inputs', 'read2', [8, 9]), ('set_input_tuple', (1, 'two')), ('set_input_callable',), ('run_before_after', 'read1'),
     ('call_target', 'pr'),
 ]
 PROMPTS = ['', 'p>', 'one?', 'two?']
@@ -138,7 +140,7 @@ class Model:
         elif k == 'eval':
             self.execute("_ = %s" % op[1])
         elif k == 'run_inputs':
-            self.inputs = list(op[2])
+            self.inputs = [str(v) for v in op[2]]
             self.execute(PROGS[op[1]])
         elif k == 'call_inputs':
             self.inputs = [op[2]]
@@ -149,7 +151,7 @@ class Model:
         elif k == 'set_input' and isinstance(op[1], int):
             self.inputs = [str(op[1])]
         elif k == 'set_input_tuple':
-            self.inputs = list(op[1])
+            self.inputs = [str(v) for v in op[1]]
         elif k == 'set_input_callable':
             self.inputs = CALLABLE
         elif k == 'run_before_after':
@@ -159,7 +161,7 @@ class Model:
         elif k == 'call_target':
             self.execute("kept = %s()" % op[1])
         elif k == 'set_input':
-            self.inputs = [op[1]] if isinstance(op[1], str) else list(op[1])
+            self.inputs = [op[1]] if isinstance(op[1], str) else [str(v) for v in op[1]]
         elif k == 'set_input_noclear':
             if callable(self.inputs):
                 self.inputs = []
@@ -167,7 +169,7 @@ class Model:
         elif k == 'queue_input':
             if callable(self.inputs):
                 self.inputs = []
-            self.inputs.extend(op[1:])
+            self.inputs.extend(str(v) for v in op[1:])
         elif k == 'clear_input':
             self.inputs = []
 
